@@ -30,6 +30,28 @@ pub fn drain<I: Iterator>(mut it: I, bound: usize) -> Vec<I::Item> {
     v
 }
 
+pub const ITER_INCONSISTENT_MSG: &str = "ITERATOR-INCONSISTENT";
+
+/// Drain through `next()` and hold the provided `Iterator` methods an implementation may
+/// override (`count`, `last`) to the same answer; `mk` makes a fresh iterator each time.
+pub fn drain_checked<I: Iterator>(mk: impl Fn() -> I, bound: usize) -> Vec<I::Item>
+where
+    I::Item: std::fmt::Debug,
+{
+    let v = drain(mk(), bound);
+    let n = mk().count();
+    if n != v.len() {
+        panic!("{ITER_INCONSISTENT_MSG}: count() == {n} but next() yields {} items", v.len());
+    }
+    let last = mk().last().map(|x| format!("{x:?}"));
+    if last != v.last().map(|x| format!("{x:?}")) {
+        panic!("{ITER_INCONSISTENT_MSG}: last() == {last:?} but the last item next() yields is {:?}", v.last());
+    }
+    let _ = mk().size_hint();
+    let _ = mk().nth(1);
+    v
+}
+
 pub fn bound_for(len: usize) -> usize {
     8 * len + 8
 }
@@ -130,7 +152,7 @@ pub fn sr(p: &SenderReport, bound: usize) -> Content {
         pc: p.packet_count(),
         oc: p.octet_count(),
         n_reports: p.n_reports(),
-        blocks: drain(p.report_blocks(), bound).iter().map(rb).collect(),
+        blocks: drain_checked(|| p.report_blocks(), bound).iter().map(rb).collect(),
     }
 }
 
@@ -138,7 +160,7 @@ pub fn rr(p: &ReceiverReport, bound: usize) -> Content {
     Content::Rr {
         ssrc: p.ssrc(),
         n_reports: p.n_reports(),
-        blocks: drain(p.report_blocks(), bound).iter().map(rb).collect(),
+        blocks: drain_checked(|| p.report_blocks(), bound).iter().map(rb).collect(),
     }
 }
 
@@ -176,7 +198,7 @@ pub fn sdes(p: &Sdes, bound: usize) -> Content {
 
 pub fn bye(p: &Bye, bound: usize) -> Content {
     Content::Bye {
-        ssrcs: drain(p.ssrcs(), bound),
+        ssrcs: drain_checked(|| p.ssrcs(), bound),
         reason: p.reason().map(|r| r.to_vec()),
         reason_string: p.get_reason_string().map(|r| r.map_err(|_| ())),
     }
@@ -222,13 +244,13 @@ fn err_s(e: RtcpParseError) -> String {
 }
 
 pub fn nack_entries(n: &Nack, bound: usize) -> Vec<u16> {
-    drain(n.entries(), bound)
+    drain_checked(|| n.entries(), bound)
 }
 pub fn fir_entries(f: &Fir, bound: usize) -> Vec<(u32, u8)> {
-    drain(f.entries(), bound).iter().map(|e| (e.ssrc(), e.sequence())).collect()
+    drain_checked(|| f.entries(), bound).iter().map(|e| (e.ssrc(), e.sequence())).collect()
 }
 pub fn sli_entries(s: &Sli, bound: usize) -> Vec<(u16, u16, u8)> {
-    drain(s.lost_macroblocks(), bound)
+    drain_checked(|| s.lost_macroblocks(), bound)
         .iter()
         .map(|e| {
             let d = format!("{e:?}");
